@@ -259,7 +259,39 @@ func runC10(c *Ctx) *Replay {
 		input = []byte(padSchema(c.layoutSchema(), (1<<uint(r.Range(16, 22)))+[]int{-1, 0, 1, 17}[r.Intn(4)]))
 		origin = "large"
 	default:
-		switch r.Intn(10) {
+		switch r.Intn(11) {
+		case 10: // LONG soup: dozens to hundreds of fragments (error lists, caps and counters
+			// fill up), ending with or without a newline, in a letter, a digit or a sign
+			var sb strings.Builder
+			pools := [][]string{junk, tokenVocab, lexMore, lexPieces}
+			pool := pools[r.Intn(len(pools))]
+			mixed := r.Chance(1, 3)
+			n := []int{19, 20, 21, 22, 40, 64, 65, 100, 128, 129, 256, 300}[r.Intn(12)]
+			if r.Chance(1, 4) {
+				// the same line over and over (a file of another format)
+				line := []string{"- name: x", "<a", "key = value", "/x", "-x", "{ \"a\": 1 },", "#include <x>", "1e", "@a"}[r.Intn(9)]
+				for i := 0; i < n; i++ {
+					sb.WriteString(line)
+					sb.WriteString([]string{"\n", " ", "\r\n"}[r.Intn(3)])
+				}
+			} else {
+				for i := 0; i < n; i++ {
+					if mixed {
+						pool = pools[r.Intn(len(pools))]
+					}
+					sb.WriteString(pool[r.Intn(len(pool))])
+					sb.WriteString([]string{" ", "", "\n", " "}[r.Intn(4)])
+				}
+			}
+			txt := sb.String()
+			switch r.Intn(4) {
+			case 0:
+				txt = strings.TrimRight(txt, " \r\n")
+			case 1:
+				txt = strings.TrimRight(txt, " \r\n") + []string{"a", "z9", "struct", "x", "1", "-", "_"}[r.Intn(7)]
+			}
+			input = []byte(txt)
+			origin = "longsoup"
 		case 9: // lexeme soup where a literal is expected
 			input = []byte(inLexContext(lexContexts[r.Intn(len(lexContexts))], lexSoup(r)))
 			origin = "lexsoup"
